@@ -1,11 +1,28 @@
-/- C15 helper lemmas, client connected before the threads start: on top of the lock discipline, the transport is
-   exactly where the holder's transaction left it (byte level), so every transaction decodes the reply to its own
-   request. -/
+/- C15 helper lemmas, the shipped discipline (client lock around connect + transaction, manager lock nested): the
+   invariant "holder of the client lock = the only thread inside `execute`; the transport is exactly where its
+   transaction left it (byte level); only connection 0 ever exists", preserved by every step of every thread, for a
+   client that is connected or not when the threads start.  Consequences: own reply, no deadlock, fairness. -/
 import Pymodbus.Lemmas.Sched
 namespace Pymodbus.Sched
 open Pymodbus Pymodbus.Framer
 
-/-- the part of the state the transactions share on the transport side (connection 0 is the only one in use) -/
+@[simp] theorem onlyReleases_nil : onlyReleases [] = true := rfl
+@[simp] theorem onlyReleases_cons (a : Op) (l : List Op) :
+    onlyReleases (a :: l) = ((a == .release || a == .crelease) && onlyReleases l) := by
+  simp [onlyReleases]
+@[simp] theorem onlyReleases_tailOps (k : Nat) : onlyReleases (tailOps k) = false := by
+  cases k with
+  | zero => rfl
+  | succ k => rw [tailOps_succ]; simp
+
+theorem curPending_congr' {th th' : Thread} (hc : th'.cur = th.cur) (h : onlyReleases th.ops = false)
+    (h' : onlyReleases th'.ops = false) : curPending th' = curPending th := by
+  simp [curPending, h, h', hc]
+
+theorem curPending_of {th : Thread} (h : onlyReleases th.ops = false) : curPending th = [th.cur] := by
+  simp [curPending, h]
+
+/-- the part of the state the transactions share on the transport side (connection 0 is the only one ever opened) -/
 structure Shared where
   pending : Bytes
   stream : Bytes
@@ -18,8 +35,11 @@ def State.shared (s : State) : Shared := ⟨s.pending 0, s.stream 0, s.buf, s.wi
     empty, the wire holds whole frames -/
 def Quiet (sh : Shared) : Prop := sh.pending = [] ∧ sh.stream = [] ∧ sh.buf = [] ∧ pairs sh.wire = true
 
-/-- where the lock holder is inside its transaction, and what the transport looks like there -/
-inductive Stage (sh : Shared) (t : Nat) (th : Thread) : Prop where
+/-- either the one connection is open, or none has been opened yet -/
+def SockOK (sock : Option Nat) (nc : Nat) : Prop := sock = some 0 ∨ (sock = none ∧ nc = 0)
+
+/-- where the holder is between taking and giving back the MANAGER lock, and what the transport looks like there -/
+inductive IStage (sh : Shared) (t : Nat) (th : Thread) : Prop where
   | tid (k : Nat) (h : th.ops = .tid :: .connect :: .send1 :: .send2 :: tailOps k) (q : Quiet sh)
   | connect (k : Nat) (h : th.ops = .connect :: .send1 :: .send2 :: tailOps k) (q : Quiet sh) (hf : th.full = false)
   | send1 (k : Nat) (h : th.ops = .send1 :: .send2 :: tailOps k) (q : Quiet sh) (hf : th.full = false)
@@ -30,16 +50,28 @@ inductive Stage (sh : Shared) (t : Nat) (th : Thread) : Prop where
       (hw : ∃ w, pairs w = true ∧ sh.wire = w ++ [⟨t, true, 0, th.frame.take 7⟩])
   | waiting (k : Nat) (h : th.ops = tailOps k) (hf : th.full = false) (hp : sh.pending = [])
       (hs : sh.stream = replyOf th.tidv th.cur) (hb : sh.buf = []) (hw : pairs sh.wire = true)
-  | recv2 (h : th.ops = [.recv2, .process, .release]) (hh : th.hdr = (replyOf th.tidv th.cur).take 8)
+  | recv2 (h : th.ops = [.recv2, .process, .release, .crelease]) (hh : th.hdr = (replyOf th.tidv th.cur).take 8)
       (hp : sh.pending = []) (hs : sh.stream = (replyOf th.tidv th.cur).drop 8) (hb : sh.buf = [])
       (hw : pairs sh.wire = true)
-  | process (h : th.ops = [.process, .release]) (hr : th.resp = replyOf th.tidv th.cur) (q : Quiet sh)
-  | release (h : th.ops = [.release]) (q : Quiet sh)
+  | process (h : th.ops = [.process, .release, .crelease]) (hr : th.resp = replyOf th.tidv th.cur) (q : Quiet sh)
+  | release (h : th.ops = [.release, .crelease]) (q : Quiet sh)
 
-/-- not inside a transaction: between transactions, or about to take the lock (the client is connected: nobody
-    opens a connection) -/
+/-- where the holder of the CLIENT lock is inside `BaseModbusClient.execute`; `m` = state of the manager lock -/
+inductive Stage (sh : Shared) (sock : Option Nat) (nc : Nat) (m : Option (Nat × Nat)) (t : Nat) (th : Thread) :
+    Prop where
+  | pre (k : Nat) (h : th.ops = .preconnect :: .acquire :: .tid :: .connect :: .send1 :: .send2 :: tailOps k)
+      (q : Quiet sh) (hs : SockOK sock nc) (hm : m = none)
+  | opening (k : Nat) (h : th.ops = .open :: .acquire :: .tid :: .connect :: .send1 :: .send2 :: tailOps k)
+      (q : Quiet sh) (hs : sock = none ∧ nc = 0) (hm : m = none)
+  | acq (k : Nat) (h : th.ops = .acquire :: .tid :: .connect :: .send1 :: .send2 :: tailOps k)
+      (q : Quiet sh) (hs : sock = some 0) (hm : m = none)
+  | inner (hs : sock = some 0) (hm : m = some (t, 1)) (st : IStage sh t th)
+  | crel (h : th.ops = [.crelease]) (q : Quiet sh) (hs : sock = some 0) (hm : m = none)
+
+/-- not inside `execute`: between calls, or about to take the client lock -/
 def Outside (th : Thread) : Prop :=
-  th.ops = [] ∨ ∃ k, th.ops = .acquire :: .tid :: .connect :: .send1 :: .send2 :: tailOps k
+  th.ops = [] ∨ ∃ k, th.ops =
+    .cacquire :: .preconnect :: .acquire :: .tid :: .connect :: .send1 :: .send2 :: tailOps k
 
 /-- per-thread bookkeeping: every result so far is the reply to its own request, and
     results ++ request in progress ++ requests not started = the requests the thread was given -/
@@ -49,29 +81,43 @@ structure ThreadOK (reqs : Nat → List Req) (t : Nat) (th : Thread) : Prop wher
 
 structure Inv (reqs : Nat → List Req) (s : State) : Prop where
   noResp : s.noResp = []
-  sock : s.sock = some 0
-  free : s.locks 0 = none → Quiet s.shared ∧ ∀ t, Outside (s.threads t)
+  free : s.locks 0 = none →
+    Quiet s.shared ∧ SockOK s.sock s.nextConn ∧ s.locks 1 = none ∧ ∀ t, Outside (s.threads t)
   held : ∀ h d, s.locks 0 = some (h, d) →
-    d = 1 ∧ Stage s.shared h (s.threads h) ∧ ∀ t, t ≠ h → Outside (s.threads t)
+    d = 1 ∧ Stage s.shared s.sock s.nextConn (s.locks 1) h (s.threads h) ∧ ∀ t, t ≠ h → Outside (s.threads t)
   ok : ∀ t, ThreadOK reqs t (s.threads t)
 
-theorem Stage.head {sh : Shared} {t : Nat} {th : Thread} (h : Stage sh t th) :
-    ∃ op l, th.ops = op :: l ∧ op ≠ .acquire := by
+theorem IStage.head {sh : Shared} {t : Nat} {th : Thread} (h : IStage sh t th) :
+    ∃ op l, th.ops = op :: l ∧ op ≠ .acquire ∧ op ≠ .cacquire := by
   cases h with
   | waiting k h =>
-    cases k with
-    | zero => exact ⟨_, _, h, by simp⟩
-    | succ k => exact ⟨_, _, by rw [h, tailOps_succ], by simp⟩
-  | tid k h => exact ⟨_, _, h, by simp⟩
-  | connect k h => exact ⟨_, _, h, by simp⟩
-  | send1 k h => exact ⟨_, _, h, by simp⟩
-  | send2 k h => exact ⟨_, _, h, by simp⟩
-  | recv2 h => exact ⟨_, _, h, by simp⟩
-  | process h => exact ⟨_, _, h, by simp⟩
-  | release h => exact ⟨_, _, h, by simp⟩
+    obtain ⟨op, l, e, _, _, h3, h4⟩ := tailOps_head k
+    exact ⟨op, l, by rw [h, e], h3, h4⟩
+  | tid k h => exact ⟨_, _, h, by simp, by simp⟩
+  | connect k h => exact ⟨_, _, h, by simp, by simp⟩
+  | send1 k h => exact ⟨_, _, h, by simp, by simp⟩
+  | send2 k h => exact ⟨_, _, h, by simp, by simp⟩
+  | recv2 h => exact ⟨_, _, h, by simp, by simp⟩
+  | process h => exact ⟨_, _, h, by simp, by simp⟩
+  | release h => exact ⟨_, _, h, by simp, by simp⟩
 
-theorem Stage.not_outside {sh : Shared} {t : Nat} {th : Thread} (h : Stage sh t th) : ¬ Outside th := by
-  obtain ⟨op, l, ho, hne⟩ := h.head
+/-- the holder of the client lock can always move: its next operation is never the acquisition of the client lock,
+    and when it is the acquisition of the manager lock, that lock is free -/
+theorem Stage.head {sh : Shared} {sock : Option Nat} {nc : Nat} {m : Option (Nat × Nat)} {t : Nat} {th : Thread}
+    (h : Stage sh sock nc m t th) :
+    ∃ op l, th.ops = op :: l ∧ op ≠ .cacquire ∧ (op = .acquire → m = none) := by
+  cases h with
+  | pre k h => exact ⟨_, _, h, by simp, by simp⟩
+  | opening k h => exact ⟨_, _, h, by simp, by simp⟩
+  | acq k h q hs hm => exact ⟨_, _, h, by simp, fun _ => hm⟩
+  | inner hs hm st =>
+    obtain ⟨op, l, e, h1, h2⟩ := st.head
+    exact ⟨op, l, e, h2, fun e' => absurd e' h1⟩
+  | crel h => exact ⟨_, _, h, by simp, by simp⟩
+
+theorem Stage.not_outside {sh : Shared} {sock : Option Nat} {nc : Nat} {m : Option (Nat × Nat)} {t : Nat}
+    {th : Thread} (h : Stage sh sock nc m t th) : ¬ Outside th := by
+  obtain ⟨op, l, ho, hne, _⟩ := h.head
   intro hout
   cases hout with
   | inl h0 => rw [h0] at ho; cases ho
@@ -84,16 +130,16 @@ theorem ThreadOK.congr {reqs : Nat → List Req} {t : Nat} {th th' : Thread} (h 
 
 variable {reqs : Nat → List Req}
 
-/-- the lock holder moves inside its transaction (the lock does not change hands) -/
+/-- the holder of the client lock moves inside `execute` (the client lock does not change hands) -/
 theorem inv_holder_step {s s' : State} {h : Nat} (hi : Inv reqs s) (hl : s.locks 0 = some (h, 1))
-    (hoth : ∀ u, u ≠ h → s'.threads u = s.threads u) (hlocks : s'.locks = s.locks) (hn : s'.noResp = [])
-    (hso : s'.sock = some 0) (hst : Stage s'.shared h (s'.threads h)) (hok : ThreadOK reqs h (s'.threads h)) :
-    Inv reqs s' := by
+    (hoth : ∀ u, u ≠ h → s'.threads u = s.threads u) (hl0 : s'.locks 0 = some (h, 1)) (hn : s'.noResp = [])
+    (hst : Stage s'.shared s'.sock s'.nextConn (s'.locks 1) h (s'.threads h))
+    (hok : ThreadOK reqs h (s'.threads h)) : Inv reqs s' := by
   obtain ⟨_, _, hout⟩ := hi.held h 1 hl
-  refine ⟨hn, hso, ?_, ?_, ?_⟩
-  · intro hf; rw [hlocks, hl] at hf; cases hf
+  refine ⟨hn, ?_, ?_, ?_⟩
+  · intro hf; rw [hl0] at hf; cases hf
   · intro h' d hd
-    rw [hlocks, hl] at hd
+    rw [hl0] at hd
     cases hd
     exact ⟨rfl, hst, fun t ht => by rw [hoth t ht]; exact hout t ht⟩
   · intro t
@@ -101,17 +147,17 @@ theorem inv_holder_step {s s' : State} {h : Nat} (hi : Inv reqs s) (hl : s.locks
     · subst ht; exact hok
     · rw [hoth t ht]; exact hi.ok t
 
-/-- a thread that does not hold the lock moves without touching the lock or the transport -/
+/-- a thread that does not hold the client lock moves without touching any lock or the transport -/
 theorem inv_outsider_step {s s' : State} {t : Nat} (hi : Inv reqs s)
     (hnot : ∀ h d, s.locks 0 = some (h, d) → t ≠ h)
     (hoth : ∀ u, u ≠ t → s'.threads u = s.threads u) (hlocks : s'.locks = s.locks) (hn : s'.noResp = s.noResp)
-    (hso : s'.sock = s.sock) (hsh : s'.shared = s.shared) (hout : Outside (s'.threads t))
-    (hok : ThreadOK reqs t (s'.threads t)) : Inv reqs s' := by
-  refine ⟨by rw [hn]; exact hi.noResp, by rw [hso]; exact hi.sock, ?_, ?_, ?_⟩
+    (hso : s'.sock = s.sock) (hnc : s'.nextConn = s.nextConn) (hsh : s'.shared = s.shared)
+    (hout : Outside (s'.threads t)) (hok : ThreadOK reqs t (s'.threads t)) : Inv reqs s' := by
+  refine ⟨by rw [hn]; exact hi.noResp, ?_, ?_, ?_⟩
   · intro hf
     rw [hlocks] at hf
-    obtain ⟨q, ho⟩ := hi.free hf
-    refine ⟨by rw [hsh]; exact q, fun u => ?_⟩
+    obtain ⟨q, hs, hm, ho⟩ := hi.free hf
+    refine ⟨by rw [hsh]; exact q, by rw [hso, hnc]; exact hs, by rw [hlocks]; exact hm, fun u => ?_⟩
     by_cases hu : u = t
     · subst hu; exact hout
     · rw [hoth u hu]; exact ho u
@@ -120,7 +166,7 @@ theorem inv_outsider_step {s s' : State} {t : Nat} (hi : Inv reqs s)
     obtain ⟨hd, hst, ho⟩ := hi.held h d hl
     have hth := hnot h d hl
     refine ⟨hd, ?_, ?_⟩
-    · rw [hoth h (Ne.symm hth), hsh]; exact hst
+    · rw [hoth h (Ne.symm hth), hsh, hso, hnc, hlocks]; exact hst
     · intro u hu
       by_cases hut : u = t
       · subst hut; exact hout
@@ -130,16 +176,17 @@ theorem inv_outsider_step {s s' : State} {t : Nat} (hi : Inv reqs s)
     · subst hu; exact hok
     · rw [hoth u hu]; exact hi.ok u
 
-/-- a thread takes the free lock -/
-theorem inv_acquire {s s' : State} {t : Nat} (hi : Inv reqs s) (hf : s.locks 0 = none)
-    (hoth : ∀ u, u ≠ t → s'.threads u = s.threads u) (hlocks : s'.locks 0 = some (t, 1))
-    (hn : s'.noResp = s.noResp) (hso : s'.sock = s.sock) (hst : Stage s'.shared t (s'.threads t))
+/-- a thread takes the free client lock -/
+theorem inv_cacquire {s s' : State} {t : Nat} (hi : Inv reqs s) (hf : s.locks 0 = none)
+    (hoth : ∀ u, u ≠ t → s'.threads u = s.threads u) (hl0 : s'.locks 0 = some (t, 1))
+    (hn : s'.noResp = s.noResp)
+    (hst : Stage s'.shared s'.sock s'.nextConn (s'.locks 1) t (s'.threads t))
     (hok : ThreadOK reqs t (s'.threads t)) : Inv reqs s' := by
-  obtain ⟨_, ho⟩ := hi.free hf
-  refine ⟨by rw [hn]; exact hi.noResp, by rw [hso]; exact hi.sock, ?_, ?_, ?_⟩
-  · intro h; rw [hlocks] at h; cases h
+  obtain ⟨_, _, _, ho⟩ := hi.free hf
+  refine ⟨by rw [hn]; exact hi.noResp, ?_, ?_, ?_⟩
+  · intro h; rw [hl0] at h; cases h
   · intro h d hl
-    rw [hlocks] at hl
+    rw [hl0] at hl
     cases hl
     exact ⟨rfl, hst, fun u hu => by rw [hoth u hu]; exact ho u⟩
   · intro u
@@ -147,169 +194,242 @@ theorem inv_acquire {s s' : State} {t : Nat} (hi : Inv reqs s) (hf : s.locks 0 =
     · subst hu; exact hok
     · rw [hoth u hu]; exact hi.ok u
 
-/-- the holder gives the lock back -/
-theorem inv_release {s s' : State} {h : Nat} (hi : Inv reqs s) (hl : s.locks 0 = some (h, 1))
-    (hoth : ∀ u, u ≠ h → s'.threads u = s.threads u) (hlocks : s'.locks 0 = none) (hn : s'.noResp = s.noResp)
-    (hso : s'.sock = s.sock) (q : Quiet s'.shared) (hout : Outside (s'.threads h))
-    (hok : ThreadOK reqs h (s'.threads h)) : Inv reqs s' := by
+/-- the holder gives the client lock back -/
+theorem inv_crelease {s s' : State} {h : Nat} (hi : Inv reqs s) (hl : s.locks 0 = some (h, 1))
+    (hoth : ∀ u, u ≠ h → s'.threads u = s.threads u) (hl0 : s'.locks 0 = none) (hn : s'.noResp = s.noResp)
+    (q : Quiet s'.shared) (hs : SockOK s'.sock s'.nextConn) (hm : s'.locks 1 = none)
+    (hout : Outside (s'.threads h)) (hok : ThreadOK reqs h (s'.threads h)) : Inv reqs s' := by
   obtain ⟨_, _, ho⟩ := hi.held h 1 hl
-  refine ⟨by rw [hn]; exact hi.noResp, by rw [hso]; exact hi.sock, ?_, ?_, ?_⟩
+  refine ⟨by rw [hn]; exact hi.noResp, ?_, ?_, ?_⟩
   · intro _
-    refine ⟨q, fun u => ?_⟩
+    refine ⟨q, hs, hm, fun u => ?_⟩
     by_cases hu : u = h
     · subst hu; exact hout
     · rw [hoth u hu]; exact ho u hu
-  · intro h' d hl'; rw [hlocks] at hl'; cases hl'
+  · intro h' d hl'; rw [hl0] at hl'; cases hl'
   · intro u
     by_cases hu : u = h
     · subst hu; exact hok
     · rw [hoth u hu]; exact hi.ok u
 
+/-- the holder moves between taking and giving back the manager lock (no lock changes) -/
+theorem inv_inner_step {s s' : State} {h : Nat} (hi : Inv reqs s) (hl : s.locks 0 = some (h, 1))
+    (hoth : ∀ u, u ≠ h → s'.threads u = s.threads u) (hlocks : s'.locks = s.locks) (hn : s'.noResp = [])
+    (hso : s'.sock = some 0) (hm : s.locks 1 = some (h, 1)) (ist : IStage s'.shared h (s'.threads h))
+    (hok : ThreadOK reqs h (s'.threads h)) : Inv reqs s' :=
+  inv_holder_step hi hl hoth (by rw [hlocks]; exact hl) hn (Stage.inner hso (by rw [hlocks]; exact hm) ist) hok
+
 theorem inv_holder_op {s : State} {t : Nat} {op : Op} {ops : List Op} (hi : Inv reqs s)
-    (hl : s.locks 0 = some (t, 1)) (hst : Stage s.shared t (s.threads t))
+    (hl : s.locks 0 = some (t, 1)) (hst : Stage s.shared s.sock s.nextConn (s.locks 1) t (s.threads t))
     (hops : (s.threads t).ops = op :: ops) : Inv reqs (stepOp .whole s t (s.threads t) ops op) := by
   have hok := hi.ok t
-  have hs := hi.sock
   have hnr := hi.noResp
   have hoth := fun u (hu : u ≠ t) => stepOp_threads_other .whole s t (s.threads t) ops op u hu
   cases hst with
-  | tid k h q =>
+  | pre k h q hso hm =>
     rw [h] at hops; cases hops
-    refine inv_holder_step hi hl hoth rfl hnr hs (Stage.connect k ?_ ⟨q.1, q.2.1, rfl, q.2.2.2⟩ ?_) ?_
+    cases hsock : s.sock with
+    | some c =>
+      have hc : s.sock = some 0 := by
+        cases hso with
+        | inl h0 => exact h0
+        | inr h0 => rw [h0.1] at hsock; cases hsock
+      refine inv_holder_step hi hl hoth (by simpa [stepOp, hsock] using hl) (by simpa [stepOp, hsock] using hnr)
+        (Stage.acq k ?_ ?_ ?_ ?_) ?_
+      · simp [stepOp, hsock, upd_same]
+      · simpa [stepOp, hsock, State.shared] using q
+      · simpa [stepOp, hsock] using hc
+      · simpa [stepOp, hsock] using hm
+      · exact hok.congr (by simp [stepOp, hsock, upd_same]) (by simp [stepOp, hsock, upd_same])
+          (curPending_congr' (by simp [stepOp, hsock, upd_same]) (by rw [h]; simp)
+            (by simp [stepOp, hsock, upd_same]))
+    | none =>
+      have hnc : s.nextConn = 0 := by
+        cases hso with
+        | inl h0 => rw [h0] at hsock; cases hsock
+        | inr h0 => exact h0.2
+      refine inv_holder_step hi hl hoth (by simpa [stepOp, hsock] using hl) (by simpa [stepOp, hsock] using hnr)
+        (Stage.opening k ?_ ?_ ?_ ?_) ?_
+      · simp [stepOp, hsock, upd_same]
+      · simpa [stepOp, hsock, State.shared] using q
+      · simpa [stepOp, hsock] using hnc
+      · simpa [stepOp, hsock] using hm
+      · exact hok.congr (by simp [stepOp, hsock, upd_same]) (by simp [stepOp, hsock, upd_same])
+          (curPending_congr' (by simp [stepOp, hsock, upd_same]) (by rw [h]; simp)
+            (by simp [stepOp, hsock, upd_same]))
+  | opening k h q hso hm =>
+    rw [h] at hops; cases hops
+    refine inv_holder_step hi hl hoth hl hnr (Stage.acq k ?_ q ?_ hm) ?_
     · simp [stepOp, upd_same]
-    · simp [stepOp, upd_same, hnr]
+    · simp [stepOp, hso.2]
     · exact hok.congr (by simp [stepOp, upd_same]) (by simp [stepOp, upd_same])
-        (curPending_congr (by simp [stepOp, upd_same]) (by rw [h]; simp) (by simp [stepOp, upd_same]))
-  | connect k h q hf =>
+        (curPending_congr' (by simp [stepOp, upd_same]) (by rw [h]; simp) (by simp [stepOp, upd_same]))
+  | acq k h q hs hm =>
     rw [h] at hops; cases hops
-    refine inv_holder_step hi hl hoth (by simp [stepOp, hs]) (by simpa [stepOp, hs] using hnr)
-      (by simpa [stepOp, hs] using hs) (Stage.send1 k ?_ ?_ ?_ ?_ ?_) ?_
-    · simp [stepOp, hs, upd_same]
-    · simpa [stepOp, hs, State.shared] using q
-    · simpa [stepOp, hs, upd_same] using hf
-    · simp [stepOp, hs, upd_same]
-    · simp [stepOp, hs, upd_same]
-    · exact hok.congr (by simp [stepOp, hs, upd_same]) (by simp [stepOp, hs, upd_same])
-        (curPending_congr (by simp [stepOp, hs, upd_same]) (by rw [h]; simp) (by simp [stepOp, hs, upd_same]))
-  | send1 k h q hf hfr hc =>
+    have hm' : s.locks 1 = none := hm
+    refine inv_holder_step hi hl hoth ?_ ?_ (Stage.inner ?_ ?_ (IStage.tid k ?_ ?_)) ?_
+    · simpa [stepOp, lockKey, lockAcquire, hm', upd] using hl
+    · simpa [stepOp, lockKey, lockAcquire, hm'] using hnr
+    · simpa [stepOp, lockKey, lockAcquire, hm'] using hs
+    · simp [stepOp, lockKey, lockAcquire, hm', upd]
+    · simp [stepOp, lockKey, lockAcquire, hm', upd_same]
+    · simpa [stepOp, lockKey, lockAcquire, hm', State.shared] using q
+    · exact hok.congr (by simp [stepOp, lockKey, lockAcquire, hm', upd_same])
+        (by simp [stepOp, lockKey, lockAcquire, hm', upd_same])
+        (curPending_congr' (by simp [stepOp, lockKey, lockAcquire, hm', upd_same]) (by rw [h]; simp)
+          (by simp [stepOp, lockKey, lockAcquire, hm', upd_same]))
+  | crel h q hs hm =>
     rw [h] at hops; cases hops
-    have hp0 : s.pending 0 = [] := q.1
-    have hs0 : s.stream 0 = [] := q.2.1
-    refine inv_holder_step hi hl hoth rfl hnr hs (Stage.send2 k ?_ ?_ ?_ ?_ ?_ ?_ q.2.2.1 ⟨s.wire, q.2.2.2, ?_⟩) ?_
+    have hm' : s.locks 1 = none := hm
+    refine inv_crelease hi hl hoth ?_ rfl q (Or.inl hs) ?_ (Or.inl ?_) ?_
+    · simp [stepOp, lockRelease, clientKey, hl, upd]
+    · simpa [stepOp, lockRelease, clientKey, hl, upd] using hm'
     · simp [stepOp, upd_same]
-    · simpa [stepOp, upd_same] using hf
-    · simpa [stepOp, upd_same] using hfr
-    · simpa [stepOp, upd_same] using hc
-    · simp only [stepOp, State.shared, upd_same, hc, hp0, hfr, server_send1]
-    · simp only [stepOp, State.shared, upd_same, hc, hp0, hs0, hfr, server_send1, List.append_nil]
-    · simp [stepOp, State.shared, upd_same, hc]
     · exact hok.congr (by simp [stepOp, upd_same]) (by simp [stepOp, upd_same])
-        (curPending_congr (by simp [stepOp, upd_same]) (by rw [h]; simp)
-          (by simp only [stepOp, upd_same]; exact len2_cons _ k))
-  | send2 k h hf hfr hc hp hsm hb hw =>
-    rw [h] at hops; cases hops
-    have hp0 : s.pending 0 = (s.threads t).frame.take 7 := hp
-    have hs0 : s.stream 0 = [] := hsm
-    obtain ⟨w, hw1, hw2⟩ := hw
-    have hw0 : s.wire = w ++ [⟨t, true, 0, (s.threads t).frame.take 7⟩] := hw2
-    refine inv_holder_step hi hl hoth (by simp [stepOp, hs]) (by simpa [stepOp, hs] using hnr)
-      (by simpa [stepOp, hs] using hs) (Stage.waiting k ?_ ?_ ?_ ?_ ?_ ?_) ?_
-    · simp [stepOp, hs, upd_same]
-    · simpa [stepOp, hs, upd_same] using hf
-    · simp only [stepOp, hs, State.shared, upd_same, hc, hp0, hfr, server_send2]
-    · simp only [stepOp, hs, State.shared, upd_same, hc, hp0, hs0, hfr, server_send2, replyTo_frame,
-        List.nil_append]
-    · simpa [stepOp, hs, State.shared] using hb
-    · simp only [stepOp, hs, State.shared, hc, hw0, List.append_assoc]
-      exact pairs_snoc2 w _ _ hw1 rfl rfl rfl rfl
-    · exact hok.congr (by simp [stepOp, hs, upd_same]) (by simp [stepOp, hs, upd_same])
-        (curPending_congr (by simp [stepOp, hs, upd_same]) (by rw [h]; exact len2_cons _ k)
-          (by simp only [stepOp, hs, upd_same]; exact len2_tail k))
-  | waiting k h hf hp hsm hb hw =>
-    have hs0 : s.stream 0 = replyOf (s.threads t).tidv (s.threads t).cur := hsm
-    cases k with
-    | succ k =>
-      rw [h, tailOps_succ] at hops; cases hops
-      refine inv_holder_step hi hl hoth rfl hnr hs (Stage.waiting k ?_ ?_ hp ?_ hb hw) ?_
+        (by simp [curPending, h, stepOp, upd_same])
+  | inner hs hm st =>
+    cases st with
+    | tid k h q =>
+      rw [h] at hops; cases hops
+      refine inv_inner_step hi hl hoth rfl hnr hs hm (IStage.connect k ?_ ⟨q.1, q.2.1, rfl, q.2.2.2⟩ ?_) ?_
+      · simp [stepOp, upd_same]
+      · simp [stepOp, upd_same, hnr]
+      · exact hok.congr (by simp [stepOp, upd_same]) (by simp [stepOp, upd_same])
+          (curPending_congr' (by simp [stepOp, upd_same]) (by rw [h]; simp) (by simp [stepOp, upd_same]))
+    | connect k h q hf =>
+      rw [h] at hops; cases hops
+      refine inv_inner_step hi hl hoth (by simp [stepOp, hs]) (by simpa [stepOp, hs] using hnr)
+        (by simpa [stepOp, hs] using hs) hm (IStage.send1 k ?_ ?_ ?_ ?_ ?_) ?_
+      · simp [stepOp, hs, upd_same]
+      · simpa [stepOp, hs, State.shared] using q
+      · simpa [stepOp, hs, upd_same] using hf
+      · simp [stepOp, hs, upd_same]
+      · simp [stepOp, hs, upd_same]
+      · exact hok.congr (by simp [stepOp, hs, upd_same]) (by simp [stepOp, hs, upd_same])
+          (curPending_congr' (by simp [stepOp, hs, upd_same]) (by rw [h]; simp) (by simp [stepOp, hs, upd_same]))
+    | send1 k h q hf hfr hc =>
+      rw [h] at hops; cases hops
+      have hp0 : s.pending 0 = [] := q.1
+      have hs0 : s.stream 0 = [] := q.2.1
+      refine inv_inner_step hi hl hoth rfl hnr hs hm (IStage.send2 k ?_ ?_ ?_ ?_ ?_ ?_ q.2.2.1 ⟨s.wire, q.2.2.2, ?_⟩) ?_
       · simp [stepOp, upd_same]
       · simpa [stepOp, upd_same] using hf
-      · simpa [stepOp, State.shared, upd_same] using hs0
+      · simpa [stepOp, upd_same] using hfr
+      · simpa [stepOp, upd_same] using hc
+      · simp only [stepOp, State.shared, upd_same, hc, hp0, hfr, server_send1]
+      · simp only [stepOp, State.shared, upd_same, hc, hp0, hs0, hfr, server_send1, List.append_nil]
+      · simp [stepOp, State.shared, upd_same, hc]
       · exact hok.congr (by simp [stepOp, upd_same]) (by simp [stepOp, upd_same])
-          (curPending_congr (by simp [stepOp, upd_same]) (by rw [h]; exact len2_tail _)
-            (by simp only [stepOp, upd_same]; exact len2_tail k))
-    | zero =>
-      rw [h, tailOps_zero] at hops; cases hops
-      have e8 : ((s.stream 0).take 8).length = 8 := by rw [hs0]; exact replyOf_take8 _ _
-      have e : stepOp .whole s t (s.threads t) [.recv2, .process, .release] .recv1 =
-          { s with stream := upd s.stream 0 ((s.stream 0).drop 8),
-                   threads := upd s.threads t
-                     { s.threads t with ops := [.recv2, .process, .release], hdr := (s.stream 0).take 8 },
-                   trace := (t, .recv1) :: s.trace } := by
-        simp only [stepOp, hs, hf, Bool.false_eq_true, if_false]
-        rw [if_pos e8]
-      have hoth' := hoth
-      rw [e] at hoth' ⊢
-      refine inv_holder_step hi hl hoth' rfl hnr hs (Stage.recv2 ?_ ?_ hp ?_ hb hw) ?_
-      · simp [upd_same]
-      · simp only [upd_same, hs0]
-      · simp only [State.shared, upd_same, hs0]
-      · exact hok.congr (by simp [upd_same]) (by simp [upd_same])
-          (curPending_congr (by simp [upd_same]) (by rw [h]; exact len2_tail 0) (by simp [upd_same]))
-  | recv2 h hh hp hsm hb hw =>
-    rw [h] at hops; cases hops
-    have hs0 : s.stream 0 = (replyOf (s.threads t).tidv (s.threads t).cur).drop 8 := hsm
-    have hresp : (s.threads t).hdr ++ (s.stream 0).take (restSize (s.threads t).hdr) =
-        replyOf (s.threads t).tidv (s.threads t).cur := by
-      rw [hh, hs0, restSize_reply]; exact (reply_reassembled _ _).1
-    have hl9 := replyOf_length (s.threads t).tidv (s.threads t).cur
-    have hne : (replyOf (s.threads t).tidv (s.threads t).cur).isEmpty = false := by
-      cases hr : replyOf (s.threads t).tidv (s.threads t).cur with
-      | nil => rw [hr] at hl9; simp at hl9
-      | cons a l => rfl
-    refine inv_holder_step hi hl hoth (by simp [stepOp, hs]) ?_ (by simp [stepOp, hs])
-      (Stage.process ?_ ?_ ⟨?_, ?_, ?_, ?_⟩) ?_
-    · simp only [stepOp, hs, hresp, hnr]
-      simp [noteResp, hne]
-    · simp [stepOp, hs, upd_same]
-    · simp only [stepOp, hs, upd_same, hresp]
-    · simpa [stepOp, hs, State.shared] using hp
-    · simp only [stepOp, hs, State.shared, upd_same]
-      rw [hh, hs0, restSize_reply]; exact (reply_reassembled _ _).2
-    · simpa [stepOp, hs, State.shared] using hb
-    · simpa [stepOp, hs, State.shared] using hw
-    · exact hok.congr (by simp [stepOp, hs, upd_same]) (by simp [stepOp, hs, upd_same])
-        (curPending_congr (by simp [stepOp, hs, upd_same]) (by rw [h]; simp) (by simp [stepOp, hs, upd_same]))
-  | process h hr q =>
-    rw [h] at hops; cases hops
-    have hb0 : s.buf = [] := q.2.2.1
-    have hpr := process_reply (s.threads t).tidv (s.threads t).cur
-    have hlen : 2 ≤ (s.threads t).ops.length := by rw [h]; simp
-    refine inv_holder_step hi hl hoth rfl hnr hs (Stage.release ?_ ⟨q.1, q.2.1, ?_, q.2.2.2⟩) ⟨?_, ?_⟩
-    · simp [stepOp, upd_same]
-    · show (processResp (s.threads t).cur.unit s.buf (s.threads t).resp).2 = []
-      rw [hb0, hr, hpr]
-    · intro x hx
-      have hx' : x ∈ (s.threads t).results ++
-          [((s.threads t).cur, (s.threads t).tidv, (processResp (s.threads t).cur.unit s.buf (s.threads t).resp).1)] := by
-        simpa [stepOp, upd_same] using hx
-      rw [List.mem_append] at hx'
-      cases hx' with
-      | inl hx' => exact hok.served x hx'
-      | inr hx' =>
-        rw [List.mem_singleton] at hx'
-        rw [hx', hb0, hr, hpr]
-        rfl
-    · exact hok.conserve.finish hlen
-        ((s.threads t).tidv, (processResp (s.threads t).cur.unit s.buf (s.threads t).resp).1)
-        (by simp [stepOp, upd_same]) (by simp [stepOp, upd_same]) (by simp [stepOp, upd_same])
-  | release h q =>
-    rw [h] at hops; cases hops
-    refine inv_release hi hl hoth ?_ rfl rfl q (Or.inl ?_) ?_
-    · show lockRelease s.locks 0 t 0 = none
-      simp [lockRelease, hl, upd]
-    · simp [stepOp, lockKey, upd_same]
-    · exact hok.congr (by simp [stepOp, lockKey, upd_same]) (by simp [stepOp, lockKey, upd_same])
-        (by simp [curPending, h, stepOp, lockKey, upd_same])
+          (curPending_congr' (by simp [stepOp, upd_same]) (by rw [h]; simp)
+            (by simp [stepOp, upd_same]))
+    | send2 k h hf hfr hc hp hsm hb hw =>
+      rw [h] at hops; cases hops
+      have hp0 : s.pending 0 = (s.threads t).frame.take 7 := hp
+      have hs0 : s.stream 0 = [] := hsm
+      obtain ⟨w, hw1, hw2⟩ := hw
+      have hw0 : s.wire = w ++ [⟨t, true, 0, (s.threads t).frame.take 7⟩] := hw2
+      refine inv_inner_step hi hl hoth (by simp [stepOp, hs]) (by simpa [stepOp, hs] using hnr)
+        (by simpa [stepOp, hs] using hs) hm (IStage.waiting k ?_ ?_ ?_ ?_ ?_ ?_) ?_
+      · simp [stepOp, hs, upd_same]
+      · simpa [stepOp, hs, upd_same] using hf
+      · simp only [stepOp, hs, State.shared, upd_same, hc, hp0, hfr, server_send2]
+      · simp only [stepOp, hs, State.shared, upd_same, hc, hp0, hs0, hfr, server_send2, replyTo_frame,
+          List.nil_append]
+      · simpa [stepOp, hs, State.shared] using hb
+      · simp only [stepOp, hs, State.shared, hc, hw0, List.append_assoc]
+        exact pairs_snoc2 w _ _ hw1 rfl rfl rfl rfl
+      · exact hok.congr (by simp [stepOp, hs, upd_same]) (by simp [stepOp, hs, upd_same])
+          (curPending_congr' (by simp [stepOp, hs, upd_same]) (by rw [h]; simp)
+            (by simp [stepOp, hs, upd_same]))
+    | waiting k h hf hp hsm hb hw =>
+      have hs0 : s.stream 0 = replyOf (s.threads t).tidv (s.threads t).cur := hsm
+      cases k with
+      | succ k =>
+        rw [h, tailOps_succ] at hops; cases hops
+        refine inv_inner_step hi hl hoth rfl hnr hs hm (IStage.waiting k ?_ ?_ hp ?_ hb hw) ?_
+        · simp [stepOp, upd_same]
+        · simpa [stepOp, upd_same] using hf
+        · simpa [stepOp, State.shared, upd_same] using hs0
+        · exact hok.congr (by simp [stepOp, upd_same]) (by simp [stepOp, upd_same])
+            (curPending_congr' (by simp [stepOp, upd_same]) (by rw [h]; simp)
+              (by simp [stepOp, upd_same]))
+      | zero =>
+        rw [h, tailOps_zero] at hops; cases hops
+        have e8 : ((s.stream 0).take 8).length = 8 := by rw [hs0]; exact replyOf_take8 _ _
+        have e : stepOp .whole s t (s.threads t) [.recv2, .process, .release, .crelease] .recv1 =
+            { s with stream := upd s.stream 0 ((s.stream 0).drop 8),
+                     threads := upd s.threads t
+                       { s.threads t with ops := [.recv2, .process, .release, .crelease], hdr := (s.stream 0).take 8 },
+                     trace := (t, .recv1) :: s.trace } := by
+          simp only [stepOp, hs, hf, Bool.false_eq_true, if_false]
+          rw [if_pos e8]
+        have hoth' := hoth
+        rw [e] at hoth' ⊢
+        refine inv_inner_step hi hl hoth' rfl hnr hs hm (IStage.recv2 ?_ ?_ hp ?_ hb hw) ?_
+        · simp [upd_same]
+        · simp only [upd_same, hs0]
+        · simp only [State.shared, upd_same, hs0]
+        · exact hok.congr (by simp [upd_same]) (by simp [upd_same])
+            (curPending_congr' (by simp [upd_same]) (by rw [h]; simp) (by simp [upd_same]))
+    | recv2 h hh hp hsm hb hw =>
+      rw [h] at hops; cases hops
+      have hs0 : s.stream 0 = (replyOf (s.threads t).tidv (s.threads t).cur).drop 8 := hsm
+      have hresp : (s.threads t).hdr ++ (s.stream 0).take (restSize (s.threads t).hdr) =
+          replyOf (s.threads t).tidv (s.threads t).cur := by
+        rw [hh, hs0, restSize_reply]; exact (reply_reassembled _ _).1
+      have hl9 := replyOf_length (s.threads t).tidv (s.threads t).cur
+      have hne : (replyOf (s.threads t).tidv (s.threads t).cur).isEmpty = false := by
+        cases hr : replyOf (s.threads t).tidv (s.threads t).cur with
+        | nil => rw [hr] at hl9; simp at hl9
+        | cons a l => rfl
+      refine inv_inner_step hi hl hoth (by simp [stepOp, hs]) ?_ (by simp [stepOp, hs]) hm
+        (IStage.process ?_ ?_ ⟨?_, ?_, ?_, ?_⟩) ?_
+      · simp only [stepOp, hs, hresp, hnr]
+        simp [noteResp, hne]
+      · simp [stepOp, hs, upd_same]
+      · simp only [stepOp, hs, upd_same, hresp]
+      · simpa [stepOp, hs, State.shared] using hp
+      · simp only [stepOp, hs, State.shared, upd_same]
+        rw [hh, hs0, restSize_reply]; exact (reply_reassembled _ _).2
+      · simpa [stepOp, hs, State.shared] using hb
+      · simpa [stepOp, hs, State.shared] using hw
+      · exact hok.congr (by simp [stepOp, hs, upd_same]) (by simp [stepOp, hs, upd_same])
+          (curPending_congr' (by simp [stepOp, hs, upd_same]) (by rw [h]; simp) (by simp [stepOp, hs, upd_same]))
+    | process h hr q =>
+      rw [h] at hops; cases hops
+      have hb0 : s.buf = [] := q.2.2.1
+      have hpr := process_reply (s.threads t).tidv (s.threads t).cur
+      have hcp : curPending (s.threads t) = [(s.threads t).cur] := curPending_of (by rw [h]; simp)
+      refine inv_inner_step hi hl hoth rfl hnr hs hm (IStage.release ?_ ⟨q.1, q.2.1, ?_, q.2.2.2⟩) ⟨?_, ?_⟩
+      · simp [stepOp, upd_same]
+      · show (processResp (s.threads t).cur.unit s.buf (s.threads t).resp).2 = []
+        rw [hb0, hr, hpr]
+      · intro x hx
+        have hx' : x ∈ (s.threads t).results ++
+            [((s.threads t).cur, (s.threads t).tidv, (processResp (s.threads t).cur.unit s.buf (s.threads t).resp).1)] := by
+          simpa [stepOp, upd_same] using hx
+        rw [List.mem_append] at hx'
+        cases hx' with
+        | inl hx' => exact hok.served x hx'
+        | inr hx' =>
+          rw [List.mem_singleton] at hx'
+          rw [hx', hb0, hr, hpr]
+          rfl
+      · exact hok.conserve.finish hcp
+          ((s.threads t).tidv, (processResp (s.threads t).cur.unit s.buf (s.threads t).resp).1)
+          (by simp [stepOp, upd_same]) (by simp [stepOp, upd_same]) (by simp [stepOp, upd_same])
+    | release h q =>
+      rw [h] at hops; cases hops
+      have hm' : s.locks 1 = some (t, 1) := hm
+      refine inv_holder_step hi hl hoth ?_ ?_ (Stage.crel ?_ ?_ ?_ ?_) ?_
+      · simpa [stepOp, lockKey, lockRelease, hm', upd] using hl
+      · simpa [stepOp, lockKey] using hnr
+      · simp [stepOp, lockKey, upd_same]
+      · simpa [stepOp, lockKey, State.shared] using q
+      · simpa [stepOp, lockKey] using hs
+      · simp [stepOp, lockKey, lockRelease, hm', upd]
+      · exact hok.congr (by simp [stepOp, lockKey, upd_same]) (by simp [stepOp, lockKey, upd_same])
+          (by simp [curPending, h, stepOp, lockKey, upd_same])
 
 theorem not_holder_of_outside {s : State} {t : Nat} (hi : Inv reqs s) (ho : Outside (s.threads t)) :
     ∀ h d, s.locks 0 = some (h, d) → t ≠ h := by
@@ -318,9 +438,10 @@ theorem not_holder_of_outside {s : State} {t : Nat} (hi : Inv reqs s) (ho : Outs
   exact (hi.held _ _ hl).2.1.not_outside ho
 
 theorem outside_or_holder {s : State} (hi : Inv reqs s) (t : Nat) :
-    Outside (s.threads t) ∨ (s.locks 0 = some (t, 1) ∧ Stage s.shared t (s.threads t)) := by
+    Outside (s.threads t) ∨
+      (s.locks 0 = some (t, 1) ∧ Stage s.shared s.sock s.nextConn (s.locks 1) t (s.threads t)) := by
   cases hl : s.locks 0 with
-  | none => exact Or.inl ((hi.free hl).2 t)
+  | none => exact Or.inl ((hi.free hl).2.2.2 t)
   | some p =>
     obtain ⟨h, d⟩ := p
     obtain ⟨hd, hst, ho⟩ := hi.held h d hl
@@ -331,30 +452,28 @@ theorem outside_or_holder {s : State} (hi : Inv reqs s) (t : Nat) :
 
 /-- the invariant is preserved by every step of every thread -/
 theorem inv_step {s : State} (hi : Inv reqs s) (t : Nat) : Inv reqs (step .whole s t) := by
-  have hs := hi.sock
   unfold step
   cases hops : (s.threads t).ops with
   | nil =>
     cases htodo : (s.threads t).todo with
     | nil => exact hi
     | cons r rest =>
+      -- the caller turns to its next request
       have hout : Outside (s.threads t) := Or.inl hops
       have hok := hi.ok t
       refine inv_outsider_step hi (not_holder_of_outside hi hout)
         (s' := stepBegin .whole s t (s.threads t) r rest)
-        (fun u hu => by simp [stepBegin, upd, hu]) rfl rfl rfl rfl ?_ ⟨?_, ?_⟩
-      · exact Or.inr ⟨r.lat, by simp [stepBegin, upd_same, hs, txnOps_whole]⟩
+        (fun u hu => by simp [stepBegin, upd, hu]) rfl rfl rfl rfl rfl ?_ ⟨?_, ?_⟩
+      · exact Or.inr ⟨r.lat, by simp [stepBegin, upd_same, txnOps_whole]⟩
       · intro x hx
         exact hok.served x (by simpa [stepBegin, upd_same] using hx)
       · have hc := hok.conserve
         unfold Conserved at hc ⊢
         rw [htodo] at hc
         rw [← hc]
-        have hcp : curPending (s.threads t) = [] := by unfold curPending; exact if_pos (Or.inl hops)
+        have hcp : curPending (s.threads t) = [] := by simp [curPending, hops]
         have hcp' : curPending ((stepBegin .whole s t (s.threads t) r rest).threads t) = [r] := by
-          rw [curPending_long]
-          · simp [stepBegin, upd_same]
-          · simp [stepBegin, upd_same, hs, txnOps_whole]
+          simp [curPending, stepBegin, upd_same, txnOps_whole]
         rw [hcp, hcp']
         simp [stepBegin, upd_same]
   | cons op ops =>
@@ -371,35 +490,45 @@ theorem inv_step {s : State} (hi : Inv reqs s) (t : Nat) : Inv reqs (step .whole
         rw [hk] at hops; cases hops
         cases hl : s.locks 0 with
         | none =>
-          show Inv reqs (stepOp .whole s t (s.threads t) _ .acquire)
-          refine inv_acquire hi hl hoth ?_ ?_ ?_ (Stage.tid k ?_ ?_) ?_
-          · simp [stepOp, lockKey, lockAcquire, hl, upd]
-          · simp [stepOp, lockKey, lockAcquire, hl]
-          · simp [stepOp, lockKey, lockAcquire, hl]
-          · simp [stepOp, lockKey, lockAcquire, hl, upd_same]
-          · simpa [stepOp, lockKey, lockAcquire, hl, State.shared] using (hi.free hl).1
-          · exact hok.congr (by simp [stepOp, lockKey, lockAcquire, hl, upd_same])
-              (by simp [stepOp, lockKey, lockAcquire, hl, upd_same])
-              (curPending_congr (by simp [stepOp, lockKey, lockAcquire, hl, upd_same]) (by rw [hk]; simp)
-                (by simp [stepOp, lockKey, lockAcquire, hl, upd_same]))
+          obtain ⟨q, hso, hm, _⟩ := hi.free hl
+          show Inv reqs (stepOp .whole s t (s.threads t) _ .cacquire)
+          refine inv_cacquire hi hl hoth ?_ ?_ (Stage.pre k ?_ ?_ ?_ ?_) ?_
+          · simp [stepOp, clientKey, lockAcquire, hl, upd]
+          · simp [stepOp, clientKey, lockAcquire, hl]
+          · simp [stepOp, clientKey, lockAcquire, hl, upd_same]
+          · simpa [stepOp, clientKey, lockAcquire, hl, State.shared] using q
+          · simpa [stepOp, clientKey, lockAcquire, hl] using hso
+          · simpa [stepOp, clientKey, lockAcquire, hl, upd] using hm
+          · exact hok.congr (by simp [stepOp, clientKey, lockAcquire, hl, upd_same])
+              (by simp [stepOp, clientKey, lockAcquire, hl, upd_same])
+              (curPending_congr' (by simp [stepOp, clientKey, lockAcquire, hl, upd_same]) (by rw [hk]; simp)
+                (by simp [stepOp, clientKey, lockAcquire, hl, upd_same]))
         | some p =>
           obtain ⟨h, d⟩ := p
           have hne := hnot h d hl
-          have e : stepOp .whole s t (s.threads t) (.tid :: .connect :: .send1 :: .send2 :: tailOps k) .acquire = s := by
-            simp [stepOp, lockKey, lockAcquire, hl, Ne.symm hne]
-          show Inv reqs (stepOp .whole s t (s.threads t) _ .acquire)
+          have e : stepOp .whole s t (s.threads t)
+              (.preconnect :: .acquire :: .tid :: .connect :: .send1 :: .send2 :: tailOps k) .cacquire = s := by
+            simp [stepOp, clientKey, lockAcquire, hl, Ne.symm hne]
+          show Inv reqs (stepOp .whole s t (s.threads t) _ .cacquire)
           rw [e]; exact hi
 
-theorem inv_init (reqs : Nat → List Req) : Inv reqs (init reqs true) := by
-  refine ⟨rfl, rfl, ?_, ?_, ?_⟩
+/-- the initial state satisfies the invariant, whether the client is connected or not -/
+theorem inv_init (reqs : Nat → List Req) (connected : Bool) : Inv reqs (init reqs connected) := by
+  refine ⟨rfl, ?_, ?_, ?_⟩
   · intro _
-    exact ⟨⟨rfl, rfl, rfl, rfl⟩, fun t => Or.inl rfl⟩
+    refine ⟨⟨rfl, rfl, rfl, rfl⟩, ?_, rfl, fun t => Or.inl rfl⟩
+    cases connected
+    · exact Or.inr ⟨rfl, rfl⟩
+    · exact Or.inl rfl
   · intro h d hl; cases hl
   · intro t
-    refine ⟨?_, (invG_init reqs true).cons t⟩
-    intro x hx
-    have : x ∈ ([] : List (Req × Nat × Result)) := hx
-    cases this
+    refine ⟨?_, ?_⟩
+    · intro x hx
+      have : x ∈ ([] : List (Req × Nat × Result)) := hx
+      cases this
+    · show ([] : List (Req × Nat × Result)).map (·.1) ++ curPending _ ++ reqs t = reqs t
+      have : curPending ((init reqs connected).threads t) = [] := by simp [curPending, init]
+      rw [this]; rfl
 
 theorem inv_run (reqs : Nat → List Req) {s : State} (hi : Inv reqs s) (sched : List Nat) :
     Inv reqs (runSched .whole s sched) := by
@@ -407,7 +536,84 @@ theorem inv_run (reqs : Nat → List Req) {s : State} (hi : Inv reqs s) (sched :
   | nil => exact hi
   | cons t rest ih => exact ih (inv_step hi t)
 
-/-- every state reachable from a connected client satisfies the invariant -/
-theorem inv_reachable (reqs : Nat → List Req) (sched : List Nat) :
-    Inv reqs (runSched .whole (init reqs true) sched) := inv_run reqs (inv_init reqs) sched
+/-- every reachable state satisfies the invariant -/
+theorem inv_reachable (reqs : Nat → List Req) (connected : Bool) (sched : List Nat) :
+    Inv reqs (runSched .whole (init reqs connected) sched) := inv_run reqs (inv_init reqs connected) sched
+
+/-! ### no deadlock, fairness -/
+
+/-- in every state satisfying the invariant: if some thread has not finished, some thread can move -/
+theorem exists_runnable {s : State} (hi : Inv reqs s) (t : Nat) (hnd : (s.threads t).done = false) :
+    ∃ u, runnable .whole s u = true := by
+  cases hl : s.locks 0 with
+  | some p =>
+    obtain ⟨h, d⟩ := p
+    obtain ⟨op, l, ho, hne, hacq⟩ := (hi.held h d hl).2.1.head
+    refine ⟨h, ?_⟩
+    by_cases ha : op = .acquire
+    · subst ha
+      have hm := hacq rfl
+      simp [runnable, ho, lockKey, hm]
+    · exact runnable_of_head _ _ _ _ _ ho ha hne
+  | none =>
+    refine ⟨t, ?_⟩
+    cases (hi.free hl).2.2.2 t with
+    | inl h0 =>
+      cases htodo : (s.threads t).todo with
+      | nil => simp [Thread.done, h0, htodo] at hnd
+      | cons r rest => simp [runnable, h0, htodo]
+    | inr hk =>
+      obtain ⟨k, hk⟩ := hk
+      simp [runnable, hk, clientKey, hl]
+
+theorem round_progress {s : State} (hi : Inv reqs s) (n : Nat)
+    (hn : ∀ v, n ≤ v → (s.threads v).done = true) (round : List Nat) (hc : Covers n round) :
+    (∀ t, (s.threads t).done = true) ∨
+      totalWork .whole (runSched .whole s round) n < totalWork .whole s n := by
+  by_cases hall : ∀ t, (s.threads t).done = true
+  · exact Or.inl hall
+  · right
+    have ⟨t, ht⟩ : ∃ t, (s.threads t).done = false := by
+      apply Classical.byContradiction
+      intro hne
+      apply hall
+      intro t
+      cases hd : (s.threads t).done with
+      | true => rfl
+      | false => exact absurd ⟨t, hd⟩ hne
+    obtain ⟨u, hu⟩ := exists_runnable hi t ht
+    have hun : u < n := by
+      refine Nat.lt_of_not_le (fun hle => ?_)
+      rw [done_not_runnable _ s u (hn u hle)] at hu; cases hu
+    exact run_progress .whole s round n u hn (hc u hun) hu
+
+/-- fairness, finite form: a schedule made of `k` rounds, each round giving every thread below `n` at least one turn,
+    with `k` at least the number of operations the threads still have to perform, ends with every thread finished -/
+theorem fair_rounds_finish {s : State} (hi : Inv reqs s) (n : Nat)
+    (hn : ∀ v, n ≤ v → (s.threads v).done = true) (rounds : List (List Nat))
+    (hc : ∀ r ∈ rounds, Covers n r) (hk : totalWork .whole s n ≤ rounds.length) :
+    ∀ t, ((runSched .whole s rounds.flatten).threads t).done = true := by
+  induction rounds generalizing s with
+  | nil =>
+    intro t
+    cases hd : (s.threads t).done with
+    | true => exact hd
+    | false =>
+      exfalso
+      obtain ⟨u, hu⟩ := exists_runnable hi t hd
+      have hun : u < n := by
+        refine Nat.lt_of_not_le (fun hle => ?_)
+        rw [done_not_runnable _ s u (hn u hle)] at hu; cases hu
+      have h1 := totalWork_step_lt .whole s u n hun hu
+      simp at hk
+      omega
+  | cons r rs ih =>
+    rw [List.flatten_cons, runSched_append]
+    cases round_progress hi n hn r (hc r (List.mem_cons_self ..)) with
+    | inl hall => exact all_done_run _ _ _ (all_done_run _ _ _ hall)
+    | inr hlt =>
+      apply ih (inv_run reqs hi r) (fun v hv => done_run _ _ _ _ (hn v hv))
+        (fun r' hr' => hc r' (List.mem_cons_of_mem _ hr'))
+      simp at hk
+      omega
 end Pymodbus.Sched
